@@ -729,6 +729,24 @@ func loadFindings() map[string]Finding {
 	for _, x := range f.Findings {
 		m[x.Property+"|"+x.Fingerprint] = x
 	}
+	// per-property staging files written by the harness authors; consolidated into
+	// known_findings.json by tools/merge_findings.py before a release
+	files, _ := filepath.Glob(filepath.Join(root, "h", "p", "*", "known_findings.json"))
+	for _, pf := range files {
+		b, err := os.ReadFile(pf)
+		if err != nil {
+			continue
+		}
+		var g struct {
+			Findings []Finding `json:"findings"`
+		}
+		if json.Unmarshal(b, &g) != nil {
+			fatal("%s does not parse", pf)
+		}
+		for _, x := range g.Findings {
+			m[x.Property+"|"+x.Fingerprint] = x
+		}
+	}
 	return m
 }
 
